@@ -3,6 +3,9 @@
 use std::collections::HashMap;
 use std::fmt::Debug;
 use std::ops::{Deref, DerefMut};
+#[cfg(rfsm_verif)]
+use crate::verif_seams::sync::Arc;
+#[cfg(not(rfsm_verif))]
 use std::sync::Arc;
 
 #[cfg(feature = "Debug")]
